@@ -21,7 +21,9 @@ var (
 	// (also decimals no float64 holds exactly, in plain and in exponent spelling: a json.Number must be compared as the exact
 	// value it spells, 1e-1 == 0.1, 1e23 == 100000000000000000000000, never through the nearest float64)
 	BigInts = []string{"9007199254740993", "-9007199254740993", "9223372036854775807", "-9223372036854775808", "18446744073709551615", "9223372036854775808",
-		"0.1", "1e-1", "1E-1", "0.3", "3e-1", "1e23", "100000000000000000000000", "0.7", "-9223372036854775809", "9223372036854775808.0", "92233720368547758080e-1"}
+		"0.1", "1e-1", "1E-1", "0.3", "3e-1", "1e23", "100000000000000000000000", "0.7", "-9223372036854775809", "9223372036854775808.0", "92233720368547758080e-1",
+		// decimals within half an ulp of an integer (a float64 reads them as that integer), next to the integer itself
+		"1.00000000000000001", "1", "0.99999999999999999", "1.0000000000000001", "4503599627370496.5", "4503599627370496", "-1.00000000000000001", "-1"}
 )
 
 func Pick[T any](r *rand.Rand, xs []T) T { return xs[r.IntN(len(xs))] }
